@@ -71,6 +71,11 @@ def cases(seed, tier):
              'opts': rng.choice([['-n'], ['-j'], ['-n', '-v'], ['-n', '-P', 'Hardened OpenSSH Server v9.9 (version 1)']]), 'timeout': rng.choice([1, 2, 5]), 'pseed': rng.getrandbits(32)}
         if gen.case_rng(seed, ID, i, 'via').random() < 0.12:
             c['via_file'] = True
+        if gen.case_rng(seed, ID, i, 'addrs').random() < 0.12:
+            # the name resolves to several addresses, each with the same service behind it: the footprint is that of one audit,
+            # on one address, not one per address
+            c['multi_addr'] = gen.case_rng(seed, ID, i, 'addrs2').choice([[[4, '192.0.2.10'], [4, '192.0.2.11']], [[4, '192.0.2.10'], [4, '192.0.2.11'], [4, '192.0.2.12']],
+                                                                          [[4, '192.0.2.10'], [6, '2001:db8::10']], [[6, '2001:db8::10'], [4, '192.0.2.10'], [4, '192.0.2.11']]])
         if rng.random() < 0.3:
             kind = rng.choice(['truncate_stall', 'truncate_close', 'garbage', 'truncate_reset', 'wrongtype', 'badblob', 'late'])
             f = {'conn': rng.randrange(1, 10), 'msg': rng.choice(['banner', 'kexinit', 'reply', 'reply', 'group']), 'kind': kind, 'off': rng.choice([0, 7, 50]), 'n': 30}
@@ -108,6 +113,11 @@ def run_case(case, ctx):
         # the same audit requested through a one-line targets file: the footprint is that of the audit, however the target was named
         plan['dir'] = ctx.scratch()
         plan['files'] = {'targets.txt': 'srv.example\n'}
+    if case.get('multi_addr'):
+        plan['world']['hosts']['srv.example'] = {'answers': case['multi_addr']}
+        for _f, a in case['multi_addr']:
+            if a != '192.0.2.10':
+                plan['world']['servers'].append({'ip': a, 'port': 22, 'profile': p})
     plan['knobs']['max_events'] = 3_000_000
     plan['knobs']['max_conns'] = 1500      # far above any legitimate footprint; keeps a runaway rate test cheap to simulate
     rec = ctx.run(plan, real_timeout=120.0)
@@ -122,6 +132,9 @@ def run_case(case, ctx):
         out.append(viol('C19 run did not terminate (%s)' % rec['outcome'], 'adm=%s' % case['adm']))
         return {'violations': out, 'keys': []}
     srv = rec['servers'][0]
+    if case.get('multi_addr'):
+        # whatever address the tool picks, the service as a whole is what the bounds are about
+        srv = dict(srv, conns=[c for s_ in rec['servers'] for c in s_['conns']], syns=sum(s_['syns'] for s_ in rec['servers']), peak_live=sum(s_['peak_live'] for s_ in rec['servers']))
     ssh1 = not p.get('ssh2', True)
     keylist = [wire.shown(x) for x in p.get('key', [])]
     kexlist = [wire.shown(x) for x in p.get('kex', [])]
